@@ -17,10 +17,17 @@ Definition is_if (k : kw) : bool := match k with KIf => true | KUnless => false 
 (* alternatives::CountJmpKind : `if (--c) goto l` / `if (--c > 0) goto l` *)
 Inductive flavour := PredecNeZero | PredecGtZero.
 
-(* [Lax] is AstVm as written.  [Strict fl] is AstVm instrumented with the three run-time
-   conditions under which the structured interpreter and the jump form can differ; it returns
-   [Err] instead of continuing when one of them is met (Proofs/BlocksSim.v: strict_lax). *)
-Inductive mode := Lax | Strict (fl : flavour).
+(* [Lax resets] is AstVm as written.  At three places the nested interpreter is at a point that
+   the jump form reaches by falling through (entering the first block of an if-chain, leaving its
+   last block, starting the first iteration of `times`); [resets = true]: it assigns `time` there
+   all the same (vm.rs as found); [resets = false]: it does not (vm.rs with
+   fixes/c06-astvm-time-reset.diff); gen/desugar_rules.py reads out of vm.rs which one it is.
+   [Strict tg fl] is AstVm instrumented with the run-time conditions under which the nested
+   interpreter and the jump form can differ; it returns [Err] instead of continuing when one of
+   them is met: the two `times` conditions for flavour [fl], and, for [tg = true], the condition
+   that an assignment at a fall-through point would change the time ([tg = false]: no such
+   assignment is made, as in [Lax false]).  Proofs/BlocksSim.v: strict_lax. *)
+Inductive mode := Lax (resets : bool) | Strict (tg : bool) (fl : flavour).
 
 Definition E_NEGCOUNT : nat := 61.    (* `times(n)` without a named counter, n < 0 *)
 Definition E_NEGCOUNTER : nat := 62.  (* `times(c = n)`, `--c > 0` flavour, counter below zero after the decrement *)
@@ -310,7 +317,16 @@ Section Blocks.
     Ok (negb (fst zr =? 0), set_regs (snd zr) st).
 
   Definition check (m : mode) (b : bool) (tag : nat) : outcome unit :=
-    match m with Lax => Ok tt | Strict _ => if b then Ok tt else Err tag end.
+    match m with Lax _ => Ok tt | Strict _ _ => if b then Ok tt else Err tag end.
+
+  (* a fall-through point: [t] is the time AstVm (as found) assigns, [t_now] the time the jump
+     form has there *)
+  Definition fall (m : mode) (t t_now : Z) (st : state) : outcome state :=
+    match m with
+    | Lax true => Ok (set_time t st)
+    | Lax false | Strict false _ => Ok (set_time t_now st)
+    | Strict true _ => if t_now =? t then Ok (set_time t st) else Err E_TIMERESET
+    end.
 
   Definition expect_time (o : option Z) : outcome Z :=
     match o with Some t => Ok t | None => Panic P_EXPECT end.
@@ -386,8 +402,8 @@ Section Blocks.
               do ck <- check m (0 <? n) E_NEGCOUNT;
               if n <? 0 then Ok (Normal, st1)      (* for _ in 0..count *)
               else
-                do ck <- check m (s_time st =? ts) E_TIMERESET;
-                do st' <- run_iter f m t b ts te (LKCount n) (set_time ts st1);
+                do st2 <- fall m ts (s_time st) st1;
+                do st' <- run_iter f m t b ts te (LKCount n) st2;
                 Ok (Normal, st')
         | STimes _ (Some v) count b =>
             do ts <- expect_time (start_time b t);
@@ -397,8 +413,8 @@ Section Blocks.
             let st1 := set_regs (wr L v n (snd zr)) (set_time te st) in
             if n =? 0 then Ok (Normal, st1)
             else
-              do ck <- check m (s_time st =? ts) E_TIMERESET;
-              do st' <- run_iter f m t b ts te (LKClobber v) (set_time ts st1);
+              do st2 <- fall m ts (s_time st) st1;
+              do st' <- run_iter f m t b ts te (LKClobber v) st2;
               Ok (Normal, st')
         end
     end
@@ -412,14 +428,17 @@ Section Blocks.
         let st1 := snd bs in
         if Bool.eqb (fst bs) (is_if k) then
           do ts <- expect_time (start_time b t);
-          do ck <- check m (negb first || (s_time st1 =? ts)) E_TIMERESET;
-          do r <- run_block f m t b (set_time ts st1);
+          do st2 <- (if first then fall m ts (s_time st1) st1 else Ok (set_time ts st1));
+          do r <- run_block f m t b st2;
           match fst r with
           | Break => Ok (Break, snd r)
           | Normal =>
               do te <- expect_time (chain_end_time rest b t);
-              do ck <- check m (match rest with CEnd => s_time (snd r) =? te | _ => true end) E_TIMERESET;
-              Ok (Normal, set_time te (snd r))
+              do st' <- match rest with
+                        | CEnd => fall m te (s_time (snd r)) (snd r)
+                        | _ => Ok (set_time te (snd r))
+                        end;
+              Ok (Normal, st')
           end
         else
           match rest with
@@ -432,8 +451,8 @@ Section Blocks.
               | Break => Ok (Break, snd r)
               | Normal =>
                   do te <- expect_time (end_time eb t1);
-                  do ck <- check m (s_time (snd r) =? te) E_TIMERESET;
-                  Ok (Normal, set_time te (snd r))
+                  do st' <- fall m te (s_time (snd r)) (snd r);
+                  Ok (Normal, st')
               end
           | CElif k' c' b' rest' => run_chain f m (block_after b t) false k' c' b' rest' st1
           end
@@ -462,7 +481,7 @@ Section Blocks.
                   let st2 := set_regs (wr L v (x - 1) (s_regs st1)) st1 in
                   if x - 1 =? 0 then Ok st2
                   else
-                    do ck <- check m (match m with Strict PredecGtZero => 0 <? x - 1 | _ => true end) E_NEGCOUNTER;
+                    do ck <- check m (match m with Strict _ PredecGtZero => 0 <? x - 1 | _ => true end) E_NEGCOUNTER;
                     run_iter f m t b ts te lk (set_time ts st2)
                 else Panic P_OVERFLOW
             end
